@@ -615,7 +615,7 @@ impl CCtx {
 fn fc_atom(i: u64) -> E {
     if i == 0 { var(DSP_IN) } else { num(1.0) }
 }
-const FC_RADIX: u64 = 26;
+const FC_RADIX: u64 = 28;
 pub fn fc_count(k: u32) -> u64 {
     seq_count(FC_RADIX, k)
 }
@@ -753,6 +753,16 @@ fn fc_stmt(c: &mut CCtx, o: u64) -> Option<()> {
             c.stmts.push(let_(&f, var("idf")));
             c.vars.push((f, Ty::C1, false));
         }
+        26 | 27 => {
+            // recursion through a top-level function: fixed depth, and a depth that follows the input (clamped to 0..6)
+            let r = c.fresh("r");
+            c.need("fact");
+            let arg = if o == 26 { num(3.0) } else { E::Math("min".into(), vec![E::Math("max".into(), vec![var(DSP_IN), num(0.0)]), num(6.0)]) };
+            c.ops.push(format!("let {r} = fact({})", pe(&arg, 0)));
+            let s = c.sites.next();
+            c.stmts.push(let_(&r, call("fact", vec![arg], s)));
+            c.vars.push((r, Ty::F, false));
+        }
         23 => {
             // named stateful function passed as a value
             let r = c.fresh("r");
@@ -785,7 +795,7 @@ pub fn fc_decode(idx: u64, k: u32) -> Option<Gen> {
     };
     let mut hs = Sites(0);
     let mut items = vec![];
-    for h in ["cnt", "apply", "mkadd", "mkcounter", "gc", "gadd", "idf"] {
+    for h in ["cnt", "apply", "mkadd", "mkcounter", "gc", "gadd", "idf", "fact"] {
         if !c.need.contains(&h) {
             continue;
         }
@@ -795,6 +805,10 @@ pub fn fc_decode(idx: u64, k: u32) -> Option<Gen> {
             "mkadd" => items.push(fdef("mkadd", &["n"], E::Lambda(vec!["y".into()], Box::new(bin("+", var("y"), var("n")))), Shape::F)),
             "mkcounter" => items.push(mkcounter()),
             "idf" => items.push(fdef("idf", &["a"], var("a"), Shape::F)),
+            "fact" => {
+                let s = hs.next();
+                items.push(fdef("fact", &["n"], iff(bin(">", var("n"), num(0.5)), bin("*", var("n"), call("fact", vec![bin("-", var("n"), num(1.0))], s)), num(1.0)), Shape::F))
+            }
             "gc" => {
                 if !c.need.contains(&"mkcounter") {
                     items.push(mkcounter());
